@@ -433,7 +433,10 @@ Definition check_dispatch_facts (ws : list worker) (hs : list handler) (d : disp
              ["stor"; "appe"; "retr"; "rest"; "type"; "pasv"; "epsv"]%string
   && d_table_literal d.
 
-(* the data-path statements this model was written from (Gen.Xfer, role-normalised) *)
+(* the data-path statements this model was written from (Gen.Xfer, role-normalised; locals are
+   alpha-renamed L0, L1, .. in order of first occurrence, parameters and free variables keep their
+   names; the dispatcher's locals are resolved by binding: HANDLER := commands_mapping.get(CMD),
+   CMD, REST := the parsed command; early-exit shapes are flattened, see tools/py2v/gen_xfer.py) *)
 (* the worker's one `async with` holds exactly the file and the data stream (either order: the
    reply comes after both have exited) *)
 Definition ctx_roles_ok (ctx : list string) : bool :=
@@ -457,8 +460,8 @@ Definition check_xfer_shapes (f : xfer_facts) : bool :=
        ["rest.isascii() and rest.isdigit() and (len(rest) <= 18) => conn.restart_offset = int(rest)";
         "not (rest.isascii() and rest.isdigit() and (len(rest) <= 18)) => conn.restart_offset = 0"]
   && list_string_eqb (xf_reset_stmt f)
-       ["pending.add(asyncio.create_task(f(conn, rest)))";
-        "if cmd in ('retr', 'stor', 'appe'): conn.transfer_offset = conn.restart_offset";
+       ["L0.add(asyncio.create_task(HANDLER(conn, REST)))";
+        "if CMD in ('retr', 'stor', 'appe'): conn.transfer_offset = conn.restart_offset";
         "conn.restart_offset = 0"]
   && list_string_eqb (xf_offset_init f) ["restart_offset=0"; "transfer_offset=0"]
   (* the builders of MLST / MLSD / LIST answers keep no state of their own: the only attributes of the
@@ -476,23 +479,23 @@ Definition check_xfer_shapes (f : xfer_facts) : bool :=
        ["self.path_io_factory = pathio.PathIONursery(path_io_factory)";
         "connection.path_io = self.path_io_factory(**kw)"]
   && list_string_eqb (xf_nursery_call f)
-       ["instance = self.factory(*args, state=self.state, **kwargs)";
-        "if self.state is None: self.state = instance.state"; "return instance"]
+       ["L0 = self.factory(*args, state=self.state, **kwargs)";
+        "if self.state is None: self.state = L0.state"; "return L0"]
   && list_string_eqb (xf_iter_anext f)
-       ["data = await self.read_coro()"; "if data: return data else: raise StopAsyncIteration"]
+       ["L0 = await self.read_coro()"; "if L0: return L0"; "raise StopAsyncIteration"]
   && list_string_eqb (xf_iter_by_block_stream f) ["return AsyncStreamIterator(lambda: self.read(count))"]
   && list_string_eqb (xf_iter_by_block_file f) ["return AsyncStreamIterator(lambda: self.read(count))"]
   && list_string_eqb (xf_throttle_read f)
-       ["await self.wait('read')"; "start = _now()"; "data = await super().read(count)";
-        "self.append('read', data, start)"; "return data"]
+       ["await self.wait('read')"; "L0 = _now()"; "L1 = await super().read(count)";
+        "self.append('read', L1, L0)"; "return L1"]
   && list_string_eqb (xf_throttle_write f)
-       ["await self.wait('write')"; "start = _now()"; "await super().write(data)";
-        "self.append('write', data, start)"]
+       ["await self.wait('write')"; "L0 = _now()"; "await super().write(data)";
+        "self.append('write', data, L0)"]
   && list_string_eqb (xf_stream_read f) ["return await self.reader.read(count)"]
   && list_string_eqb (xf_stream_write f) ["self.writer.write(data)"; "await self.writer.drain()"]
   && (1 <=? xf_default_block_size f)%Z
   && list_string_eqb (xf_get_stream f)
-       ["reader, writer = await self.get_passive_connection(conn_type)";
+       ["L0, L1 = await self.get_passive_connection(conn_type)";
         "if offset: await self.command('REST ' + str(offset), '350')";
         "await self.command(*command_args)"]
   && String.eqb (xf_passive_first_cmd f) "self.command('TYPE ' + conn_type, '200')"
@@ -507,9 +510,9 @@ Definition check_xfer_shapes (f : xfer_facts) : bool :=
        ["self.close()"; "await self.client.command(None, expected_codes, wait_codes)"]
   && list_string_eqb (xf_aexit f) ["if exc is None: await self.finish() else: self.close()"]
   && list_string_eqb (xf_upload_file f)
-       ["async with self.path_io.open(SRC, mode='rb') as file_in, self.upload_stream(DST) as stream: async for block in file_in.iter_by_block(block_size): await stream.write(block)"]
+       ["async with self.path_io.open(SRC, mode='rb') as L0, self.upload_stream(DST) as L1: async for L2 in L0.iter_by_block(block_size): await L1.write(L2)"]
   && list_string_eqb (xf_download_file f)
-       ["async with self.path_io.open(DST, mode='wb') as file_out, self.download_stream(SRC) as stream: async for block in stream.iter_by_block(block_size): await file_out.write(block)"].
+       ["async with self.path_io.open(DST, mode='wb') as L0, self.download_stream(SRC) as L1: async for L2 in L1.iter_by_block(block_size): await L0.write(L2)"].
 
 Definition check_xfer_facts (f : xfer_facts) : bool := check_xfer_modes f && check_xfer_shapes f.
 
